@@ -673,6 +673,7 @@ fn needs_copy(ctx: &SyncContext, path: &RootRelativePath, src_details: &EntryDet
 fn confirm_actions(ctx: &mut SyncContext, actions: &mut Actions) -> Result<(), String> {
     // Confirm deletes
     let mut to_remove = vec![]; // Rather than removing things as we go, we remove them at the end
+    let mut kept_in_the_way = vec![]; // Dest entries that we were told to keep, but are where a source entry needs to go
     for (path, (entry_to_delete, reason)) in actions.to_delete.iter() {
         let msg = format!(
             "{} needs deleting {}",
@@ -706,12 +707,23 @@ fn confirm_actions(ctx: &mut SyncContext, actions: &mut Actions) -> Result<(), S
             DestEntryNeedsDeletingBehaviour::Skip => {
                 trace!("{msg}. Skipping.");
                 to_remove.push(path.clone());
+                if *reason == DeleteReason::Incompatible {
+                    kept_in_the_way.push(path.clone());
+                }
             }
             DestEntryNeedsDeletingBehaviour::Delete => (), // Carry on
         }
     }
     for p in to_remove {
         actions.to_delete.remove(&p);
+    }
+    // The source entries that would have replaced something we're keeping (and anything inside them) can't be copied.
+    // In particular we mustn't try anyway, as a kept symlink would lead us to write somewhere else entirely.
+    let blocked : Vec<RootRelativePath> = actions.to_copy.iter().map(|(p, _)| p)
+        .filter(|p| kept_in_the_way.iter().any(|k| p.is_same_or_inside(k))).cloned().collect();
+    for p in blocked {
+        trace!("Not copying {} as the dest entry in its place is being kept", p);
+        actions.to_copy.remove(&p);
     }
 
     // Confirm copies
